@@ -40,7 +40,7 @@ def norm_callee(c):
     c = re.sub(r'<(G1Params|G2Params) as GroupParams>::Base', 'Base', c)
     return c
 
-FIELD_TYS = ('Fq', 'Fq2', 'Fq4', 'Fq12', 'Base')
+FIELD_TYS = ('Fq', 'Fq2', 'Fq4', 'Fq12', 'Base', 'Fr')
 
 def unref(interp, st, v):
     while isinstance(v, tuple) and v and v[0] in ('ref', 'mref'):
@@ -244,7 +244,7 @@ class Contracts:
     # ---------------------------------------------------------------- field contracts
     def field_op(self, interp, st, ty, meth, c, a, rawargs):
         A = SYM
-        T = ty if ty != 'Base' else 'Fq'     # Base is always atomic
+        T = ty if ty not in ('Base', 'Fr') else 'Fq'     # Base / Fr are always atomic
         x = a[0] if a else None
         if meth == 'zero' and not a:
             return [(st, self.const_of(ty, 0))]
@@ -358,7 +358,7 @@ class Contracts:
         return None
 
     def const_of(self, ty, k, like=None):
-        if ty in self.atoms or ty in ('Fq', 'Base'):
+        if ty in self.atoms or ty in ('Fq', 'Base', 'Fr'):
             return C(k)
         v = tower.fresh(ty, '_', self.atoms)
         return SYM.one(ty, v) if k == 1 else SYM.zero(ty, v)
